@@ -6,8 +6,29 @@ import (
 
 	"verif/scn"
 
+	"github.com/z7zmey/php-parser/pkg/ast"
+
 	"github.com/z7zmey/php-parser/pkg/zzsim"
 )
+
+// target is the vertex an operation with Sub = sub is applied to.
+func target(root ast.Vertex, sub int) ast.Vertex {
+	if sub > 0 {
+		if r, ok := root.(*ast.Root); ok && len(r.Stmts) > 0 {
+			if v := r.Stmts[(sub-1)%len(r.Stmts)]; v != nil {
+				return v
+			}
+		}
+	}
+	return root
+}
+
+func opKey(kind string, sub int) string {
+	if sub > 0 {
+		return kind + "@stmt" + strconv.Itoa(sub-1)
+	}
+	return kind
+}
 
 // runC13: one tree, a history of read-only operations with writer faults, and
 // the reference model "each operation on its own freshly parsed tree".
@@ -30,7 +51,23 @@ func runC13(s *scn.Scenario, res *scn.Result) {
 		ref := map[string]string{}
 		refCalls := map[string]int{}
 		refDigest := map[string]bool{} // the reference output is only known as length + hash
+		type refKey struct {
+			kind string
+			sub  int
+		}
+		var keys []refKey
 		for _, k := range opKinds {
+			keys = append(keys, refKey{k, 0})
+		}
+		seenKey := map[string]bool{}
+		for _, op := range s.History {
+			if key := opKey(op.Kind, op.Sub); op.Sub > 0 && !seenKey[key] && len(keys) < len(opKinds)+8 {
+				seenKey[key] = true
+				keys = append(keys, refKey{op.Kind, op.Sub})
+			}
+		}
+		for _, rk := range keys {
+			k := opKey(rk.kind, rk.sub)
 			var outs [2]string
 			for rep := 0; rep < 2; rep++ {
 				p := doParse(in, false)
@@ -39,7 +76,7 @@ func runC13(s *scn.Scenario, res *scn.Result) {
 					mix(p.out)
 					return // nothing to apply operations to: trivial run
 				}
-				r := doOp(k, p.root, len(in.Src), nil)
+				r := doOp(rk.kind, target(p.root, rk.sub), len(in.Src), nil)
 				refCalls[k] = r.calls
 				refDigest[k] = r.digest
 				outs[rep] = r.out
@@ -88,19 +125,23 @@ func runC13(s *scn.Scenario, res *scn.Result) {
 				res.Faults["forced_gc"]++
 				continue
 			}
-			want, ok := ref[op.Kind]
+			key := opKey(op.Kind, op.Sub)
+			want, ok := ref[key]
 			if !ok {
 				continue
 			}
-			if lastKind != "" && lastKind != op.Kind {
+			if lastKind != "" && lastKind != key {
 				mixed = true
 			}
-			lastKind = op.Kind
-			var f *scn.WFault
-			if op.Fault != nil && refCalls[op.Kind] > 0 {
-				f = &scn.WFault{Kind: op.Fault.Kind, At: op.Fault.At % refCalls[op.Kind]}
+			lastKind = key
+			if op.Sub > 0 {
+				res.Probes["operation_applied_to_a_statement_of_the_tree"]++
 			}
-			r := doOp(op.Kind, p.root, len(in.Src), f)
+			var f *scn.WFault
+			if op.Fault != nil && refCalls[key] > 0 {
+				f = &scn.WFault{Kind: op.Fault.Kind, At: op.Fault.At % refCalls[key]}
+			}
+			r := doOp(op.Kind, target(p.root, op.Sub), len(in.Src), f)
 			res.Ops++
 			mix(r.out)
 			when := ""
@@ -125,17 +166,17 @@ func runC13(s *scn.Scenario, res *scn.Result) {
 				// narrow relaxation: only the bytes accepted before the fault are judged
 				// (not judged at all when the reference is too large to be kept as
 				// bytes; the tree check below still applies)
-				if refDigest[op.Kind] || r.digest {
+				if refDigest[key] || r.digest {
 					res.Probes["faulted_output_not_judged_reference_too_large"]++
 				} else if r.prefix > len(want) || r.out[:r.prefix] != want[:r.prefix] {
-					add("H1-output-equals-fresh", "faulted-prefix:"+op.Kind, "op "+strconv.Itoa(i)+" ("+op.Kind+when+"): bytes accepted before the fault are not a prefix of the fresh-tree output: "+firstDiff(r.out[:r.prefix], want))
+					add("H1-output-equals-fresh", "faulted-prefix:"+op.Kind, "op "+strconv.Itoa(i)+" ("+key+when+"): bytes accepted before the fault are not a prefix of the fresh-tree output: "+firstDiff(r.out[:r.prefix], want))
 					break
 				}
 			} else if r.out != want {
-				add("H1-output-equals-fresh", "output:"+op.Kind, "op "+strconv.Itoa(i)+" ("+op.Kind+") after "+strconv.Itoa(i)+" earlier operations differs from the same operation on a fresh tree: "+firstDiff(r.out, want))
+				add("H1-output-equals-fresh", "output:"+op.Kind, "op "+strconv.Itoa(i)+" ("+key+") after "+strconv.Itoa(i)+" earlier operations differs from the same operation on a fresh tree: "+firstDiff(r.out, want))
 				break
 			}
-			if !check(i, op.Kind, when) {
+			if !check(i, key, when) {
 				break
 			}
 		}
